@@ -124,3 +124,50 @@ fn c05_twin_must_fail() {
     combiner::<2, 2, 4>(StandardCombiner::Bma);
     assert!(false, "twin: reachability witness");
 }
+
+// ---------------------------------------------------------------------------------------------
+// C05: the caching adaptor never changes a result (also for an asymmetric user similarity)
+// ---------------------------------------------------------------------------------------------
+use crate::ontology::verif_kani::{empty_ontology_cap, stub_random_state};
+use crate::term::group::verif_kani::Parts;
+use crate::term::HpoGroup;
+
+struct Asym {
+    lo_hi: f32,
+    hi_lo: f32,
+    same: f32,
+}
+impl Similarity for Asym {
+    fn calculate(&self, a: &HpoTerm, b: &HpoTerm) -> f32 {
+        if a.id() < b.id() {
+            self.lo_hi
+        } else if a.id() > b.id() {
+            self.hi_lo
+        } else {
+            self.same
+        }
+    }
+}
+
+#[kani::proof]
+#[kani::stub(std::hash::RandomState::new, stub_random_state)]
+#[kani::unwind(7)]
+fn c05_cached_similarity_is_transparent() {
+    let o = empty_ontology_cap(1, 1);
+    let pa = Parts::new(3, HpoGroup::default(), HpoGroup::default(), HpoGroup::default());
+    let pb = Parts::new(7, HpoGroup::default(), HpoGroup::default(), HpoGroup::default());
+    let a = pa.view(&o);
+    let b = pb.view(&o);
+    let x: f32 = kani::any();
+    let y: f32 = kani::any();
+    let z: f32 = kani::any();
+    kani::assume(!x.is_nan() && !y.is_nan() && !z.is_nan());
+    let cached = CachedSimilarity::new(Asym { lo_hi: x, hi_lo: y, same: z });
+    assert!(cached.calculate(&a, &b).to_bits() == x.to_bits(), "first lookup");
+    assert!(cached.calculate(&b, &a).to_bits() == y.to_bits(), "swapped arguments are a different pair");
+    assert!(cached.calculate(&a, &b).to_bits() == x.to_bits(), "second lookup of the same pair");
+    assert!(cached.calculate(&a, &a).to_bits() == z.to_bits(), "identical terms");
+    kani::cover!(x != y, "asymmetric similarity");
+    core::mem::forget(cached);
+    core::mem::forget(o);
+}
